@@ -1,5 +1,5 @@
 (* C16 -- shift-null tests impute potential outcomes; statements only (proofs in Proofs/CoreProofs.v). *)
-From PV Require Import Lib.Base Model.Prng Model.Core Proofs.CoreProofs.
+From PV Require Import Lib.Base Model.Prng Model.Core Proofs.CoreProofs Proofs.ShiftProofs.
 Open Scope Q_scope.
 
 (* potential_outcomes: first column (x, f(y)), second column (finv(x), y), treated units first;
@@ -21,6 +21,31 @@ Theorem C16_scalar_eq_pair : forall x y s a reps plus1 d t,
   two_sample_shift x y s a reps plus1 (Pair (AddC d) (AddC (- d))) t.
 Proof. exact shift_scalar_eq_pair. Qed.
 Print Assumptions C16_scalar_eq_pair.
+
+(* with a constant shift d the test reports the statistic of the data as given and -- on the same tape -- the
+   p-value, the rearrangements and the final generator state of two_sample(x, y + d); the simulated values and the
+   observed one are those of two_sample(x, y + d) moved by d.  Holds for every statistic that moves by -d when d
+   is added to its second sample (stated here for the mean difference; the general form is
+   ShiftProofs.shift_is_two_sample_of_shifted) *)
+Theorem C16_constant_shift_is_two_sample_of_shifted_data : forall d x y a reps plus1 t r, (0 < length y)%nat ->
+  two_sample_shift x y MeanDiff a reps plus1 (Scalar d) t = Ok r ->
+  tstat r = eval2 MeanDiff x y /\
+  exists r', two_sample x (map (fun v => v + d) y) MeanDiff a reps plus1 t = Ok r' /\
+             pval r' = pval r /\ arrs r' = arrs r /\ rest r' = rest r /\
+             tstat r' == tstat r - d /\ Forall2 (fun v v' => v' == v - d) (dist r) (dist r').
+Proof. exact meandiff_shift_is_two_sample_of_shifted. Qed.
+Print Assumptions C16_constant_shift_is_two_sample_of_shifted_data.
+
+Theorem C16_constant_shift_general : forall d x y s,
+  (forall u w w', w <> [] -> Forall2 (fun a b => b == a + d) w w' -> eval2 s u w' == eval2 s u w - d) ->
+  (0 < length y)%nat -> forall a reps plus1 t r,
+  two_sample_shift x y s a reps plus1 (Scalar d) t = Ok r ->
+  tstat r = eval2 s x y /\
+  exists r', two_sample x (map (fun v => v + d) y) s a reps plus1 t = Ok r' /\
+             pval r' = pval r /\ arrs r' = arrs r /\ rest r' = rest r /\
+             tstat r' == tstat r - d /\ Forall2 (fun v v' => v' == v - d) (dist r) (dist r').
+Proof. exact shift_is_two_sample_of_shifted. Qed.
+Print Assumptions C16_constant_shift_general.
 
 (* a missing shift or a single callable raises ValueError *)
 Theorem C16_bad_shift_rejected : forall x y s a reps plus1 t,
